@@ -1,7 +1,93 @@
 import DltypeModel
 import Spec
+import Proofs.ParseTop
+import Proofs.Eval
 namespace Dltype.C05
-open Dltype Dltype.Spec
+open Dltype Dltype.Spec Dltype.Proofs
+
+/-- **C05a** every string of the documented grammar is accepted, and read as the tree it was written from:
+    the parsed program is the tree's post-order and the identifier is the string itself.
+    (`Tree.WF`: legal identifiers and numerals; an infix node's left operand binds at least as tightly and
+    its right operand strictly tighter than the node — i.e. the string, without parentheses of its own,
+    means this tree under "`^` above `* /` above `+ -`, left to right within a level"; functions and
+    parentheses are atoms.) -/
+theorem grammar_accepted_and_compiled (t : Tree) (hwf : t.WF = true) :
+    parseDim t.str = .ok { identifier := t.str, post := t.post } :=
+  parseDim_tree t hwf
+
+/-- … and with an optional `name=` prefix (a legal name that does not occur in the expression) -/
+theorem named_expression_accepted (x : Name) (t : Tree) (hx : isIdent x = true) (hwf : t.WF = true)
+    (hnot : x ∉ t.vars) :
+    parseDim (x ++ '=' :: t.str) = .ok { identifier := x, post := t.post } :=
+  parseDim_named x t hx hwf hnot
+
+/-- **C05b** the stack machine computes the arithmetic value of the tree: on the program of a tree it
+    returns a value exactly when the tree has one (all names bound, no division by zero, no square root of
+    a negative, no negative exponent), and then it is that value (floor division, floor square root). -/
+theorem machine_computes_tree_value (t : Tree) (hwf : t.WF = true) (σ : Scope) (v : Int) :
+    runPostfix t.post [] σ = .val v ↔ t.eval σ.get? = some v :=
+  runPostfix_val_iff t (WF_FnOK t hwf) σ v
+
+/-- **C05 (end to end)** parsing the string of a tree and evaluating it under a scope gives the tree's
+    arithmetic value, for every tree of the grammar and every integer scope -/
+theorem string_evaluates_to_arithmetic_value (t : Tree) (hwf : t.WF = true) (σ : Scope) (v : Int) :
+    evalString t.str σ = some (.val v) ↔ t.eval σ.get? = some v := by
+  unfold evalString
+  rw [parseDim_tree t hwf]
+  simp only [Option.some.injEq]
+  unfold DimExpr.evaluate
+  simp only [Bool.false_eq_true, if_false]
+  by_cases hid : (({ identifier := t.str, post := t.post } : DimExpr).isIdentifier && σ.has t.str) = true
+  · -- only a bare variable is its own identifier; the cached value is the scope's value for it
+    simp only [hid, if_true]
+    simp only [Bool.and_eq_true, DimExpr.isIdentifier, Bool.false_or, beq_iff_eq] at hid
+    obtain ⟨hpost, hhas⟩ := hid
+    simp only [Scope.has, Option.isSome_iff_exists] at hhas
+    obtain ⟨w, hw⟩ := hhas
+    have hrun : runPostfix t.post [] σ = .val w := by
+      rw [hpost]; simp [runPostfix, hw]
+    have := (machine_computes_tree_value t hwf σ w).mp hrun
+    simp only [hw]
+    constructor
+    · intro h; cases h; exact this
+    · intro h; rw [this] at h; cases h; rfl
+  · simp only [hid, Bool.false_eq_true, if_false]
+    exact machine_computes_tree_value t hwf σ v
+
+/-- the value does not depend on scope entries for names that do not occur in the expression -/
+theorem value_depends_only_on_own_names (t : Tree) (f g : Name → Option Int)
+    (h : ∀ x ∈ t.vars, f x = g x) : t.eval f = t.eval g := by
+  induction t with
+  | lit ds => rfl
+  | var x => simpa [Tree.eval] using h x (by simp [Tree.vars])
+  | bin o l r ihl ihr =>
+    simp only [Tree.eval]
+    rw [ihl (fun x hx => h x (by simp [Tree.vars, hx])), ihr (fun x hx => h x (by simp [Tree.vars, hx]))]
+  | fn2 fn a b iha ihb =>
+    simp only [Tree.eval]
+    rw [iha (fun x hx => h x (by simp [Tree.vars, hx])), ihb (fun x hx => h x (by simp [Tree.vars, hx]))]
+  | isqrt a ih => simp only [Tree.eval]; rw [ih (fun x hx => h x (by simpa [Tree.vars] using hx))]
+  | grp a ih => simp only [Tree.eval]; exact ih (fun x hx => h x (by simpa [Tree.vars] using hx))
+
+/-- **C05d** the value the checker demands of an axis annotated with an expression of the grammar (a
+    dimension that is neither a plain name nor a bare literal) is the arithmetic value of that expression
+    under the context's assignment -/
+theorem checker_demands_tree_value (t : Tree) (hwf : t.WF = true) (σ : Scope) (a : Nat)
+    (hni : ({ identifier := t.str, post := t.post } : DimExpr).isIdentifier = false)
+    (hnl : ({ identifier := t.str, post := t.post } : DimExpr).isLiteral = false)
+    (h : DimConforms σ { identifier := t.str, post := t.post } a) : t.eval σ.get? = some (Int.ofNat a) := by
+  rcases h with h | ⟨_, h⟩
+  · simp at h
+  · rcases h with h | h | h
+    · rw [hni] at h; cases h
+    · rw [hnl] at h; cases h
+    · exact (machine_computes_tree_value t hwf σ _).mp h
+
+/-- non-vacuity of C05d: `a+1` is neither a plain name nor a literal -/
+theorem example_expression_dim :
+    let t : Tree := .bin .add (.var ['a']) (.lit ['1'])
+    t.WF = true ∧ ({ identifier := t.str, post := t.post } : DimExpr).isIdentifier = false ∧
+    ({ identifier := t.str, post := t.post } : DimExpr).isLiteral = false := by decide
 
 /-- non-vacuity: a concrete tree of the grammar, its string, its program and its value -/
 theorem example_tree :
